@@ -127,7 +127,9 @@ def build():
     pf.props_all = ["C07", "C17"]
     pf.props_safety = ["C13"]
     str_shims(pf)
-    pf.replace_all_re(r"(\w+)\.parse\(\)\.ok\(\)", r"shim_str_parse_usize(\1)", "R2", why="str::parse::<usize>().ok() behind a shim (abstract function of the bytes)")
+    pf.replace_all_re(r"(\w+)\.parse\(\)\.ok\(\)", r"shim_str_parse_usize(\1)", "R2", why="str::parse::<usize>().ok() behind a shim (abstract function of the bytes)", min_count=0)
+    pf.replace_all_re(r"(\w+)\.parse::<usize>\(\)\.ok\(\)", r"shim_str_parse_usize(\1)", "R2", why="str::parse::<usize>().ok() behind a shim", min_count=0)
+    pf.replace_all_re(r"(\w+)\.parse::<u32>\(\)\.ok\(\)", r"shim_str_parse_u32(\1)", "R2", why="str::parse::<u32>().ok() behind a shim (the unsigned parsers accept the same strings; the narrower one fails on values that do not fit)", min_count=0)
     m = re.search(r"return None;\s*\}", pf.orig)
     if not m:
         raise AnchorLost("parse_frame: early return not found")
